@@ -47,4 +47,31 @@ def pegLine (toks : List String) : String :=
      | none => "bad-op")
   | _ => "bad-op"
 
+
+/-- matchrest <offset> <hexsrc> : Matched / RestInput as RunAfterParsed computes them from the parser's final offset -/
+def matchRestLine (toks : List String) : String :=
+  match toks with
+  | ["matchrest", off, src] =>
+    (match off.toNat?, bytesOf src with
+     | some o, some bs =>
+       let pre := bs.take o
+       let post := bs.drop o
+       (match String.fromUTF8? (ByteArray.mk (pre.toArray.map (fun n => UInt8.ofNat n))) with
+        | some s =>
+          -- isSpace is restated here (the driver is core-only; DS/Props/C03.lean holds the same definition with the theorems)
+          let isSp (c : Char) : Bool :=
+            c == ' ' || c == '\t' || c == '\n' || c == '\x0b' || c == '\x0c' || c == '\r' || c.toNat == 0x85 || c.toNat == 0xA0 ||
+            c.toNat == 0x1680 || (0x2000 ≤ c.toNat && c.toNat ≤ 0x200a) || c.toNat == 0x2028 || c.toNat == 0x2029 || c.toNat == 0x202f ||
+            c.toNat == 0x205f || c.toNat == 0x3000
+          let cs := s.toList
+          let m := (cs.reverse.dropWhile isSp).reverse
+          let r := (cs.reverse.takeWhile isSp).reverse
+          let mb := (String.ofList m).toUTF8.toList.map (·.toNat)
+          let rb := (String.ofList r).toUTF8.toList.map (·.toNat) ++ post
+          let hexOf (l : List Nat) : String := if l.isEmpty then "-" else DS.Hex.encodeBytes (l.map (fun n => UInt8.ofNat n))
+          s!"m={hexOf mb} r={hexOf rb}"
+        | none => "invalid-utf8-prefix")
+     | _, _ => "bad-op")
+  | _ => "bad-op"
+
 end DS.Driver
